@@ -588,10 +588,13 @@ class BaseSpectrum:
         num = trapezoid(y * np.log(x) / x, x=x)
         den = trapezoid(y / x, x=x)
 
-        if num == 0 or den == 0:  # pragma: no cover
+        if den == 0:  # pragma: no cover
             bar_lam = 0.0
         else:
-            bar_lam = np.exp(abs(num / den))
+            # num and den change sign together with the wavelength order,
+            # so the ratio needs no abs(); the mean of ln(wavelength) is
+            # negative (or zero) for wavelengths below (at) 1 Angstrom.
+            bar_lam = np.exp(num / den)
 
         return bar_lam * self._internal_wave_unit
 
